@@ -19,8 +19,21 @@ impl OutlinePen for NullPen {
     fn close(&mut self) {}
 }
 
+const BIG: [u8; 9] = [0xBA, 0x40, 0, 0x40, 0, 0x40, 0, 0x63, 0x63];
 fn push(v: i64, out: &mut Vec<u8>) {
-    if v == 1 << 30 {
+    if v == -(1 << 30) {
+        out.extend(BIG);
+        out.push(0x65);
+    } else if v == i32::MAX as i64 {
+        out.extend(BIG);
+        out.extend(BIG);
+        out.extend([0xB8, 0xFF, 0xFF, 0x60, 0x60]);
+    } else if v == i32::MIN as i64 {
+        out.extend(BIG);
+        out.push(0x65);
+        out.extend(BIG);
+        out.extend([0x65, 0x60]);
+    } else if v == 1 << 30 {
         // 2^30 = (0x4000 * 0x4000 / 64) * 0x4000 / 64 in 26.6 multiplication
         out.extend([0xBA, 0x40, 0, 0x40, 0, 0x40, 0, 0x63, 0x63]);
     } else if (0..=255).contains(&v) {
@@ -35,7 +48,13 @@ fn size_of(ins: &Value) -> usize {
     match ins["op"].as_str().unwrap() {
         "PUSH" => {
             let v = ins["arg"].as_i64().unwrap();
-            if v == 1 << 30 {
+            if v == -(1 << 30) {
+                10
+            } else if v == i32::MAX as i64 {
+                23
+            } else if v == i32::MIN as i64 {
+                21
+            } else if v == 1 << 30 {
                 9
             } else if (0..=255).contains(&v) {
                 2
@@ -81,6 +100,7 @@ pub fn assemble(code: &[Value]) -> Vec<u8> {
             "ENDF" => out.push(0x2D),
             "CALL" => out.push(0x2B),
             "LOOPCALL" => out.push(0x2A),
+            "A1" | "A2" | "P0" | "P1" | "P2" | "P5" => out.push(arg as u8),
             "DELTAC" => out.push(0x73),
             "SLOOP" => out.push(0x17),
             "FLIPPT" => out.push(0x80),
@@ -119,11 +139,16 @@ pub fn build_font(funcs: &[Value], glyph: &[Value]) -> Vec<u8> {
     let code = assemble(glyph);
     let pts = vec![CurvePoint::new(0, 0, true), CurvePoint::new(500, 0, true), CurvePoint::new(250, 600, true)];
     let g = Glyph::Simple(SimpleGlyph { bbox: Bbox { x_min: 0, y_min: 0, x_max: 500, y_max: 600 }, contours: vec![Contour::from(pts)], instructions: code });
-    let opts = SynthOpts { maxp_hint: (4, 4, 4, 2, 8), extra: vec![(Tag::new(b"fpgm"), fpgm)], ..Default::default() };
+    let cvt: Vec<u8> = [0i16, 100, -200, 32767].iter().flat_map(|v| v.to_be_bytes()).collect();
+    let mut extra = vec![(Tag::new(b"fpgm"), fpgm)];
+    if glyph.iter().any(|i| matches!(i["op"].as_str(), Some("A1" | "A2" | "P0" | "P1" | "P2" | "P5"))) {
+        extra.push((Tag::new(b"cvt "), cvt));
+    }
+    let opts = SynthOpts { maxp_hint: (4, 4, 4, 2, 8), extra, ..Default::default() };
     truetype_font(&[Glyph::Empty, g], &opts).expect("vm font")
 }
 
-const KINDS: [&str; 16] = ["InvalidCvtIndex", "NegativeLoopCounter", "InvalidPointIndex", "InvalidPointRange", "ExceededExecutionBudget", "ValueStackOverflow", "ValueStackUnderflow", "InvalidJump", "InvalidDefinition", "CallStackOverflow", "CallStackUnderflow", "UnexpectedEndOfBytecode", "DefinitionInGlyphProgram", "UnhandledOpcode", "NestedDefinition", "InvalidStackValue"];
+const KINDS: [&str; 17] = ["DivideByZero", "InvalidCvtIndex", "NegativeLoopCounter", "InvalidPointIndex", "InvalidPointRange", "ExceededExecutionBudget", "ValueStackOverflow", "ValueStackUnderflow", "InvalidJump", "InvalidDefinition", "CallStackOverflow", "CallStackUnderflow", "UnexpectedEndOfBytecode", "DefinitionInGlyphProgram", "UnhandledOpcode", "NestedDefinition", "InvalidStackValue"];
 
 /// (pedantic outcome class, non-pedantic outcome class)
 pub fn run_program(font: &[u8]) -> Result<(String, String), String> {
